@@ -498,6 +498,117 @@ fn check(i: u64, l: &mut Local) {
     let ds = data_shapes();
     let t = &ts[i as usize / ds.len()];
     let (dname, d) = &ds[i as usize % ds.len()];
+    check_prog(t, dname, d, l);
+}
+
+/// family R: every range a..b / a..=b with a, b in -3..=3 in four syntactic positions
+const RANGE_POSITIONS: [&str; 4] = ["range-grid:sum", "range-grid:forall", "range-grid:declaration", "range-grid:nested-dependent"];
+fn range_grid_size() -> u64 {
+    7 * 7 * 2 * RANGE_POSITIONS.len() as u64
+}
+fn range_grid(i: u64) -> Prog {
+    let lit = I::Lit;
+    let plus = |a: I, k: f64| I::Add(Box::new(a), Box::new(I::Lit(k)));
+    let le = |lhs: E, rhs: f64| Cons { name: None, lhs, rel: "<=", rhs: E::K(I::Lit(rhs)), iters: vec![] };
+    let mut i = i;
+    let mut digit = |n: u64| {
+        let d = i % n;
+        i /= n;
+        d
+    };
+    let pos = digit(RANGE_POSITIONS.len() as u64) as usize;
+    let incl = digit(2) == 1;
+    let b = digit(7) as f64 - 3.0;
+    let a = digit(7) as f64 - 3.0;
+    let xs = || vec![range_decl("x", 9.0, "NonNegativeReal(0, 9)")];
+    let sc = vec![("z", "Real(-4, 4)")];
+    let name = RANGE_POSITIONS[pos];
+    match pos {
+        0 => Prog { name, sense: "min", obj: add(E::V("z"), agg("sum", vec![It::Range("i", lit(a), lit(b), incl)], mul(plus(iv("i"), 4.0), x("x", vec![plus(iv("i"), 3.0)])))), cons: vec![le(E::V("z"), 1.0)], decls: xs(), scalars: sc },
+        1 => Prog { name, sense: "min", obj: E::V("z"), cons: vec![Cons { name: None, lhs: add(x("x", vec![plus(iv("i"), 3.0)]), E::V("z")), rel: "<=", rhs: E::K(iv("i")), iters: vec![It::Range("i", lit(a), lit(b), incl)] }, le(E::V("z"), 3.0)], decls: xs(), scalars: sc },
+        2 => Prog {
+            name,
+            sense: "max",
+            obj: add(E::V("z"), agg("sum", vec![It::Range("i", lit(a + 3.0), lit(b + 3.0), incl)], mul(plus(iv("i"), 1.0), x("w", vec![iv("i")])))),
+            cons: vec![le(E::V("z"), 1.0)],
+            decls: vec![Decl { family: "w", idx: vec!["i"], ty: "Real(0, 1)", iters: vec![It::Range("i", lit(a + 3.0), lit(b + 3.0), incl)] }],
+            scalars: sc,
+        },
+        _ => Prog { name, sense: "min", obj: add(E::V("z"), agg("sum", vec![It::Range("i", lit(0.0), lit(2.0), false), It::Range("j", plus(iv("i"), a), lit(b), incl)], mul(plus(iv("j"), 5.0), x("x", vec![plus(iv("j"), 4.0)])))), cons: vec![le(E::V("z"), 1.0)], decls: xs(), scalars: sc },
+    }
+}
+
+/// family N: every ordered pair (outer iterator kind, inner iterator kind) in three positions
+const PAIR_POSITIONS: [&str; 3] = ["sum", "forall", "forall-sum"];
+const OUTER_KINDS: usize = 7;
+const INNER_KINDS: usize = 8;
+fn pair_size() -> u64 {
+    (OUTER_KINDS * INNER_KINDS * PAIR_POSITIONS.len() * 4) as u64
+}
+/// (iterator, numeric variables it binds)
+fn outer_kind(k: usize) -> (It, Vec<&'static str>, &'static str) {
+    match k {
+        0 => (It::Range("i", I::Lit(0.0), I::Len("A"), false), vec!["i"], "range"),
+        1 => (It::In("v", "A"), vec!["v"], "array"),
+        2 => (It::Enum("v", "i", "A"), vec!["v", "i"], "enumerate"),
+        3 => (It::Zip("a", "b", "A", "B"), vec!["a", "b"], "zip"),
+        4 => (It::Edges("u", "t", Some("w"), "G"), vec!["w"], "edges"),
+        5 => (It::SetOp("v", "union", "A", "B"), vec!["v"], "union"),
+        _ => (It::Nodes("n", "G"), vec![], "nodes"),
+    }
+}
+fn inner_kind(k: usize, outer_nums: &[&'static str], outer: usize) -> Option<(It, Vec<&'static str>, &'static str)> {
+    Some(match k {
+        0 => (It::Range("i2", I::Lit(0.0), I::Len("B"), false), vec!["i2"], "range"),
+        1 => (It::In("v2", "B"), vec!["v2"], "array"),
+        2 => (It::Enum("v2", "i2", "B"), vec!["v2", "i2"], "enumerate"),
+        3 => (It::Zip("a2", "b2", "B", "A"), vec!["a2", "b2"], "zip"),
+        4 => (It::Edges("u2", "t2", Some("w2"), "G"), vec!["w2"], "edges"),
+        5 => (It::SetOp("v2", "difference", "B", "A"), vec!["v2"], "difference"),
+        6 => (It::Range("j2", I::Var(outer_nums.first()?), I::Lit(3.0), true), vec!["j2"], "dependent-range"),
+        _ => {
+            if outer != 6 {
+                return None;
+            }
+            (It::NeighEdges("u2", "t2", "n"), vec![], "neigh_edges")
+        }
+    })
+}
+fn pair_prog(i: u64) -> Option<(Prog, usize)> {
+    let mut i = i;
+    let mut digit = |n: usize| {
+        let d = (i % n as u64) as usize;
+        i /= n as u64;
+        d
+    };
+    let shape = digit(4);
+    let pos = digit(PAIR_POSITIONS.len());
+    let ik = digit(INNER_KINDS);
+    let ok = digit(OUTER_KINDS);
+    let (outer, onums, oname) = outer_kind(ok);
+    let (inner, inums, iname) = inner_kind(ik, &onums, ok)?;
+    let mut k: Option<I> = None;
+    for (n, v) in onums.iter().chain(inums.iter()).enumerate() {
+        // distinct weights so that a swapped binding changes the coefficient
+        let term = I::Mul(Box::new(I::Lit((n + 1) as f64)), Box::new(I::Var(v)));
+        k = Some(match k {
+            None => term,
+            Some(prev) => I::Add(Box::new(prev), Box::new(term)),
+        });
+    }
+    let k = k.unwrap_or(I::Lit(1.0));
+    let name: &'static str = Box::leak(format!("pair:{}:{oname}>{iname}", PAIR_POSITIONS[pos]).into_boxed_str());
+    let le1 = |lhs: E, iters: Vec<It>| Cons { name: None, lhs, rel: "<=", rhs: E::K(I::Lit(1.0)), iters };
+    let sc = vec![("z", "Real(-4, 4)")];
+    let prog = match pos {
+        0 => Prog { name, sense: "min", obj: add(E::V("z"), agg("sum", vec![outer, inner], mul(k, E::V("z")))), cons: vec![le1(E::V("z"), vec![])], decls: vec![], scalars: sc },
+        1 => Prog { name, sense: "min", obj: E::V("z"), cons: vec![le1(mul(k, E::V("z")), vec![outer, inner]), le1(E::V("z"), vec![])], decls: vec![], scalars: sc },
+        _ => Prog { name, sense: "min", obj: E::V("z"), cons: vec![le1(add(E::V("z"), agg("sum", vec![inner], mul(k, E::V("z")))), vec![outer]), le1(E::V("z"), vec![])], decls: vec![], scalars: sc },
+    };
+    Some((prog, shape))
+}
+
+fn check_prog(t: &Prog, dname: &str, d: &Data, l: &mut Local) {
     let p_text = t.with_constructs(d);
     let u_text = t.unrolled(d);
     l.count("pairs");
@@ -532,9 +643,20 @@ fn check(i: u64, l: &mut Local) {
 pub fn run(mut run: Run) -> ! {
     crate::core::silence_panics();
     let n = (templates().len() * data_shapes().len()) as u64;
-    run.rule = "34 program templates (exclusive/inclusive/negative/descending/empty/length-dependent ranges, array iteration, enumerate, zip of unequal lengths, dependent nested iterators, matrix access, union/intersection/difference, prod incl. empty, avg/min/max incl. empty ones that must be rejected, for-quantified constraints with indexed names, two iterators, index expressions x_{i+1} and x_{A[i]}, two-index families incl. the collision-prone x_1_23 / x_12_3, graph edges with weights, nodes, neigh_edges, neigh_edges_of, declarations over ranges / array values / edges) x 4 data shapes (3 elements; fractional and repeated values with self-loop and unweighted graph; singletons with isolated node; zeros and shared elements); each pair (program with constructs, reference unrolling) is compiled and the linear models compared row for row in order; distinct = program texts; non-trivial = both compile".into();
+    run.rule = "family P: 34 program templates (exclusive/inclusive/negative/descending/empty/length-dependent ranges, array iteration, enumerate, zip of unequal lengths, dependent nested iterators, matrix access, union/intersection/difference, prod incl. empty, avg/min/max incl. empty ones that must be rejected, for-quantified constraints with indexed names, two iterators, index expressions x_{i+1} and x_{A[i]}, two-index families incl. the collision-prone x_1_23 / x_12_3, graph edges with weights, nodes, neigh_edges, neigh_edges_of, declarations over ranges / array values / edges) x 4 data shapes (3 elements; fractional and repeated values with self-loop and unweighted graph; singletons with isolated node; zeros and shared elements); family R: every range a..b and a..=b with a, b in -3..=3 as sum iterator, for-quantifier of a constraint, iterator of a declaration, and inner iterator whose start depends on the outer variable (784 programs); family N: every ordered pair (outer, inner) of iterator kinds {range, array, enumerate, zip, weighted edges, union/difference, nodes, dependent range, neigh_edges of the outer node} as nested sum, as nested for-quantifier (row order) and as sum inside a for-quantified row, x the 4 data shapes, with a coefficient that weights every bound variable differently; each pair (program with constructs, reference unrolling) is compiled and the linear models compared row for row in order; distinct = program texts; non-trivial = both compile".into();
     run.assume("reference unroller implementing the documented iteration semantics (textual order of data, zip stops at the shorter array, enumerate counts from 0, exclusive/inclusive ranges, descending ranges empty, empty sum = 0, empty prod = 1, empty avg/min/max rejected, union keeps first occurrences in order, intersection and difference filter the first array); all data values are small dyadic numbers so coefficient sums are exact and models are compared with zero tolerance");
     run.family("P-template-x-data", n, check);
+    run.family("R-range-grid", range_grid_size(), |i, l| {
+        let ds = data_shapes();
+        check_prog(&range_grid(i), ds[0].0, &ds[0].1, l);
+    });
+    run.family("N-iterator-pairs", pair_size(), |i, l| match pair_prog(i) {
+        None => l.count("pair-not-expressible"),
+        Some((p, shape)) => {
+            let ds = data_shapes();
+            check_prog(&p, ds[shape].0, &ds[shape].1, l);
+        }
+    });
     run.require("both-compiled");
     run.require("both-rejected");
     run.finish()
